@@ -26,10 +26,13 @@ PROPS = {
                 "and the same operation replayed by the Lean model; distinct = distinct (op,result) lines. calldata stream: "
                 "every ValidateSendBlock of the embedded contracts on canonical and re-arranged ABI call data (trailing bytes, "
                 "dirty padding, relocated tails); evaluated on the real code only (no Lean replay)",
-        "partial": "hash function is a parameter (injective on the inputs that arise); stream `variants` (two nodes) and the "
-                   "acceptance-side theorem uncovered_fields_normalised (T2) are not part of this check yet; JSON object "
-                   "structure and RLP are tied by Go-side round-trip monitors only; T4 (call data canonical) has no Lean "
-                   "model of the ABI: it is an AST fact (every ValidateSendBlock re-packs block.Data) plus monitors",
+        "partial": "hash function is a parameter (injective on the inputs that arise); the two-node stream `variants` and the "
+                   "acceptance-side theorem uncovered_fields_normalised (T2: stored bytes are a function of covered fields and "
+                   "state) are not built in this round; RLP: generic item round trip is a theorem and the typed encoder is "
+                   "byte-equal to go-ethereum on the stream, the typed decoder (reflection over Go structs) is covered by "
+                   "Go-side round-trip monitors only; JSON object structure is not modelled (amount / nonce text forms are); "
+                   "T4 (call data canonical) has no Lean model of the ABI: it is an AST fact (every ValidateSendBlock "
+                   "re-packs block.Data) plus model-free monitors on every embedded method",
         "assumptions": ["SHA3-256 (types.NewHash) is an uninterpreted parameter H: fixed 32-byte output, collision-free on the "
                         "pre-images, data and descendant/content sources of the blocks compared"],
     },
